@@ -231,7 +231,8 @@ def run(ck):
         rounds, tick = 110, 70
         acts, info = gen_actions(rng, mode, ns, rounds, q1, q2, mq, heavy=True)
         tag = "c%d.%s.%d.%d.%d" % (ci, mode, al, sc, ns)
-        base = L.exchange(mode, al, sc, ns, acts, rounds + 3 * len(info) * ns, tick, q1=q1, q2=q2, mq=mq, tls=400)
+        drain = 3 * ns * (q1 + q2 + mq + 2) + 20      # rounds needed to empty full queues after the last disturbance
+        base = L.exchange(mode, al, sc, ns, acts, rounds + drain, tick, q1=q1, q2=q2, mq=mq, tls=400)
         bout = runner.run_batch(hcs, [("b", base)])["b"]["out"]
         n = L.frames_in(bout)
         # frame index reached at 55 % of the rounds: losses are placed before it so that the rest of the script is undisturbed
@@ -243,7 +244,7 @@ def run(ck):
             if sid in meta:
                 return
             # every lost frame can cost one acknowledgement / repeat / link-state timeout: give the line time to settle
-            scripts.append((sid, L.exchange(mode, al, sc, ns, acts, rounds + min(25 * len(lose), 300) + 3 * len(info) * ns, tick, q1=q1, q2=q2, mq=mq, lose=lose, tls=400)))
+            scripts.append((sid, L.exchange(mode, al, sc, ns, acts, rounds + min(25 * len(lose), 300) + drain, tick, q1=q1, q2=q2, mq=mq, lose=lose, tls=400)))
             meta[sid] = dict(mode=mode, al=al, ns=ns, q1=q1, q2=q2, mq=mq, kind=kind, lose=lose, settled=len(lose) <= 12, quiet_rounds=int(rounds * 0.3))
             infos[sid] = info
         add("none")
